@@ -37,6 +37,9 @@ pub struct Rel {
 pub struct RefOpts {
     /// evaluate INTERSECT ALL / EXCEPT ALL with semi/anti-join semantics (the engine's known deviation)
     pub setop_all_semi_anti: bool,
+    /// evaluate `x [NOT] IN (subquery)` two-valued (a plain EXISTS-match mark) unless it is a
+    /// top-level conjunct of WHERE (the engine's known deviation for IN under OR / NOT / CASE)
+    pub in_subquery_two_valued_nested: bool,
 }
 
 pub struct Interp<'a> {
@@ -45,6 +48,8 @@ pub struct Interp<'a> {
     pub params: Vec<Value>,
     ctes: Vec<(String, Rel)>,
     pub steps: u64,
+    /// addresses of IN-subquery nodes that are top-level WHERE conjuncts (possibly under one NOT)
+    top_in: Vec<*const Expr>,
 }
 
 struct GroupCtx<'a> {
@@ -306,11 +311,12 @@ fn sort_cmp(a: &Value, b: &Value, desc: bool, nulls_first: bool) -> Ordering {
 
 impl<'a> Interp<'a> {
     pub fn new(db: &'a Db) -> Self {
-        Interp { db, opts: RefOpts::default(), params: vec![], ctes: vec![], steps: 0 }
+        Interp { db, opts: RefOpts::default(), params: vec![], ctes: vec![], steps: 0, top_in: vec![] }
     }
 
     pub fn run(&mut self, q: &Query) -> R<Rel> {
         self.ctes.clear();
+        self.top_in.clear();
         self.query(q, None)
     }
 
@@ -471,11 +477,14 @@ impl<'a> Interp<'a> {
                 let r = self.query(q, Some(sc))?;
                 Ok(Value::Bool(r.rows.is_empty() == *negated))
             }
-            Expr::InSubquery { e, q, negated } => {
-                let v = self.eval(e, sc)?;
+            Expr::InSubquery { e: ie, q, negated } => {
+                let v = self.eval(ie, sc)?;
                 let r = self.query(q, Some(sc))?;
                 let vals: Vec<Value> = r.rows.iter().map(|x| x[0].clone()).collect();
-                let res = in_values(&v, &vals);
+                let mut res = in_values(&v, &vals);
+                if self.opts.in_subquery_two_valued_nested && !self.top_in.contains(&(e as *const Expr)) {
+                    res = Some(res == Some(true));
+                }
                 Ok(tv(if *negated { res.map(|b| !b) } else { res }))
             }
             Expr::Scalar(q) => {
@@ -768,6 +777,20 @@ impl<'a> Interp<'a> {
         };
         let cols = input.cols.clone();
         // WHERE
+        if let Some(w) = &s.where_ {
+            fn conjuncts<'x>(e: &'x Expr, out: &mut Vec<*const Expr>) {
+                match e {
+                    Expr::Bin(a, BinOp::And, b) => {
+                        conjuncts(a, out);
+                        conjuncts(b, out);
+                    }
+                    Expr::InSubquery { .. } => out.push(e as *const Expr),
+                    Expr::Not(inner) if matches!(**inner, Expr::InSubquery { .. }) => out.push(&**inner as *const Expr),
+                    _ => {}
+                }
+            }
+            conjuncts(w, &mut self.top_in);
+        }
         let mut rows: Vec<Row> = vec![];
         for row in input.rows {
             let keep = match &s.where_ {
